@@ -500,7 +500,7 @@ struct C09 {
                 op.tag = t < 5 ? 0 : t < 6 ? 1 : t < 8 ? 2 : t < 9 ? 3 : 4;
                 if (ops.chance(1, 6)) op.tag = 256 + (int) ops.below(256);
                 op.mlen = gen_len(ops, thorough);
-                op.adlen = ops.chance(1, 2) ? 0 : (uint32_t) ops.pick<uint32_t>({1, 3, 15, 16, 17, 32, 33, 64, 80});
+                op.adlen = ops.chance(1, 2) ? 0 : (uint32_t) ops.pick<uint32_t>({1, 3, 15, 16, 17, 32, 33, 64, 80, 127, 255, 256, 257, 300, 511, 513, 1000, 4099});
                 op.null_outlen = ops.chance(1, 5);
                 op.null_ad = ops.chance(1, 3);
                 pushed[(size_t) op.s]++;
